@@ -77,6 +77,7 @@ func main() {
 			for _, n := range p.ApplyAnchors(*verif + "/tables/anchors.json") {
 				rep.Note("anchor: %s", n)
 			}
+			rules.ResolveOptionFields(p)
 			rep.SetConfig(tags)
 			rep.Note("config tags=%q: %d packages, %d functions with bodies", tags, len(p.Pkgs), len(p.Funcs))
 			for _, rl := range spec.Rules {
